@@ -31,6 +31,7 @@ parts = [
   Raw("prelude/zmtp_spec.rs"),
   Raw("prelude/enc_glue.rs"),
   Raw("prelude/cipher.rs"),
+  Raw("prelude/c03_lemmas.rs"),
   Raw(text="""
 // R6: `&[msgs]` (array-of-one to slice coercion)
 #[verifier::external_body]
@@ -80,6 +81,34 @@ pub proof fn lemma_enc_batches_one(m: FrameBatch)
      requires=["old(self).framer.header_slab@.len() == 0", "total_frames(batch@) * 9 <= usize::MAX", "no_commands_b(batch@)"],
      ensures=[("C03:ok", "r is Ok"), ("C01+C03:chunks", "r matches Ok(v) ==> concat_bytes(v@) == enc_batches(batch@)"),
               ("C03:slab_left_empty", "final(self).framer.header_slab@.len() == 0")]),
+  # trait default method `ISecureFramer::try_read_msgs_from_bytes`, checked with NullFramer as the implementor:
+  # the "append; decode until None" loop equals the spec function drain() of the C03/C04 lemmas
+  Fn(FR, "try_read_msgs_from_bytes", impl=r"trait\s+ISecureFramer\b", emit_impl="impl NullFramer",
+     requires=["old(self).parser.state is ReadHeader"],
+     ensures=[
+       ("C03+C04:err_iff_drain_err", "r is Err <==> drain(old(accumulator)@ + data@, old(self).parser.max_msg_size).err"),
+       ("C03+C04:frames_are_drain_of_all_bytes", "r matches Ok(v) ==> frames_of(v@) == drain(old(accumulator)@ + data@, old(self).parser.max_msg_size).frames"),
+       ("C03+C04:leftover_is_undecoded_tail", "r matches Ok(v) ==> final(accumulator)@ == drain(old(accumulator)@ + data@, old(self).parser.max_msg_size).rest"),
+       ("C03:state_frame", "final(self).parser.state is ReadHeader && final(self).parser.max_msg_size == old(self).parser.max_msg_size"),
+     ],
+     extra=[("R6", "accumulator.extend_from_slice(&data)", "accumulator.extend_from_slice(data.as_slice())", 1)],
+     loops={0: {
+       "invariant": [
+         "self.parser.state is ReadHeader", "self.parser.max_msg_size == old(self).parser.max_msg_size",
+         ("C03+C04:loop_frames", "drain(old(accumulator)@ + data@, self.parser.max_msg_size).frames == frames_of(msgs@) + drain(accumulator@, self.parser.max_msg_size).frames"),
+         ("C03+C04:loop_rest", "drain(old(accumulator)@ + data@, self.parser.max_msg_size).rest == drain(accumulator@, self.parser.max_msg_size).rest"),
+         ("C03+C04:loop_err", "drain(old(accumulator)@ + data@, self.parser.max_msg_size).err == drain(accumulator@, self.parser.max_msg_size).err"),
+       ],
+       "ensures": [("C03+C04:loop_exit", "!frame_complete(accumulator@) && !oversize(accumulator@, self.parser.max_msg_size)")],
+       "decreases": "accumulator@.len()"}},
+     hints=[
+       ("init", "let mut msgs = Vec::new();", 0, "after",
+        "proof { assert(frames_of(msgs@) =~= Seq::<Frame>::empty()); assert(frames_of(msgs@) + drain(accumulator@, self.parser.max_msg_size).frames =~= drain(accumulator@, self.parser.max_msg_size).frames); }\nlet ghost mut acc_prev = accumulator@;"),
+       ("push", "msgs.push(msg);", 0, "before", "let ghost m0 = msgs@; let ghost acc_before = acc_prev;"),
+       ("push2", "msgs.push(msg);", 0, "after",
+        "proof { assert(frames_of(msgs@) =~= frames_of(m0).push(frame_of(msg))); "
+        "assert(frames_of(m0).push(frame_of(msg)) + drain(accumulator@, self.parser.max_msg_size).frames =~= frames_of(m0) + (seq![frame_of(msg)] + drain(accumulator@, self.parser.max_msg_size).frames)); acc_prev = accumulator@; }"),
+     ]),
   # ---- LengthPrefixedFramer (record layer of CURVE / Noise)
   lpf_write("write_msg_multipart"),
   lpf_write("write_msg_batch"),
